@@ -292,3 +292,4 @@ UNITS += [_dc.replace(u, prop="C03") for u in _C04_UNITS if u.target.endswith("A
 
 from contracts.check_value_key import check_value_key_unit  # noqa: E402
 UNITS.append(check_value_key_unit("C03"))
+UNITS += [_dc.replace(u, prop="C03") for u in _C04_UNITS if u.target.endswith("_ActionConfigLoad._load_config")]
